@@ -295,6 +295,29 @@ func rulePackerWriters(id string) func(*Checker) {
 		optT := p.NamedType("slug", "PackerOption")
 		pack, unpack := p.Fn("slug", "Packer.Pack"), p.Fn("slug", "Packer.Unpack")
 		hot := p.reach(pack, unpack)
+		// stores through references held in Packer fields (elements of allowSymlinkTargets …)
+		for _, fn := range sortedFuncs(hot) {
+			if !p.InModule(fn) {
+				continue
+			}
+			eachInstr(fn, func(in ssa.Instruction) {
+				var addr ssa.Value
+				switch x := in.(type) {
+				case *ssa.Store:
+					addr = x.Addr
+				case *ssa.MapUpdate:
+					addr = x.Map
+				default:
+					return
+				}
+				if _, direct := addr.(*ssa.FieldAddr); direct {
+					return // handled below
+				}
+				if f := packerFieldBehind(p, addr, pk, map[ssa.Value]bool{}, 3); f != "" {
+					c.fail(id, p.FuncName(fn), "write through Packer."+f, p.Pos(in.Pos()), "storage reachable from Packer."+f+" is modified during Pack/Unpack: a packer reused for another call (or used concurrently) behaves differently from a fresh one with the same options")
+				}
+			})
+		}
 		for _, fn := range p.Funcs {
 			eachInstr(fn, func(in ssa.Instruction) {
 				st, ok := in.(*ssa.Store)
@@ -516,4 +539,62 @@ func ruleC05Pos(c *Checker) {
 			}
 		}
 	}
+}
+
+// packerFieldBehind: the address points into storage referenced from a field
+// of the Packer (element of a slice / map held in the field).
+func packerFieldBehind(p *Prog, v ssa.Value, pk *types.Named, seen map[ssa.Value]bool, depth int) string {
+	if v == nil || seen[v] {
+		return ""
+	}
+	seen[v] = true
+	switch x := v.(type) {
+	case *ssa.IndexAddr:
+		return packerFieldBehind(p, x.X, pk, seen, depth)
+	case *ssa.Slice:
+		return packerFieldBehind(p, x.X, pk, seen, depth)
+	case *ssa.Phi:
+		for _, e := range x.Edges {
+			if f := packerFieldBehind(p, e, pk, seen, depth); f != "" {
+				return f
+			}
+		}
+	case *ssa.UnOp:
+		if x.Op != token.MUL {
+			return ""
+		}
+		if fa, ok := x.X.(*ssa.FieldAddr); ok {
+			if n, ok := types.Unalias(derefType(fa.X.Type())).(*types.Named); ok && n == pk && isRefLike(x.Type()) {
+				return fieldOf(fa).Name()
+			}
+			return ""
+		}
+		if al, ok := rootCell(x.X).(*ssa.Alloc); ok {
+			for _, st := range cellWrites(al) {
+				if f := packerFieldBehind(p, st.Val, pk, seen, depth); f != "" {
+					return f
+				}
+			}
+		}
+	case *ssa.Call:
+		if b, ok := x.Call.Value.(*ssa.Builtin); ok && b.Name() == "append" {
+			return packerFieldBehind(p, x.Call.Args[0], pk, seen, depth)
+		}
+	case *ssa.Parameter:
+		if depth > 0 {
+			fn := x.Parent()
+			for i, q := range fn.Params {
+				if q == x {
+					for _, s := range p.callersOf(fn) {
+						if i < len(s.Common().Args) {
+							if f := packerFieldBehind(p, s.Common().Args[i], pk, seen, depth-1); f != "" {
+								return f
+							}
+						}
+					}
+				}
+			}
+		}
+	}
+	return ""
 }
